@@ -142,7 +142,18 @@ def base_assigns(V, fn):
         l = strip(n["l"])
         if isinstance(l, dict) and l.get("k") == "Path" and "local" in l and str(l.get("t", "")).startswith("&mut") and n["l"].get("k") == "Unary":
             # `*slot = e` where slot is a `&mut` to exactly one delta base (picked by a selector closure / helper)
-            pv = pv or Prov(fn, field_assign=False)
+            if V.base_holder and peel_ty(l.get("t", "")) == V.base_adt:
+                # the whole record is replaced through a `&mut` to it
+                r = strip(n["r"])
+                if isinstance(r, dict) and r.get("k") == "Struct" and "rest" not in r and norm(r.get("adt", "")) == V.base_adt:
+                    for f_ in r["fields"]:
+                        if f_["name"] in V.bases:
+                            yield f_["name"], f_["e"], i
+                else:
+                    for b in V.bases:
+                        yield b, n["r"], i
+                continue
+            pv = pv or state_prov(V, fn)
             hit = sorted({a[2] for a in pv.atoms(l) if a[0] == "field" and a[1] == V.base_adt and a[2] in V.bases})
             if len(hit) == 1:
                 yield hit[0], n["r"], i
@@ -162,6 +173,20 @@ def base_assigns(V, fn):
             else:
                 for b in V.bases:
                     yield b, n["r"], i
+
+
+def state_prov(V, fn):
+    """per-field provenance of add_entry in which a local that merely *refers* to the writer's state (`let Self { base, .. } = self`,
+    `&mut self.previous`) does not absorb what is stored into that state: `*base = Rec { .. }` updates the state, it does not make
+    every later read of `base.x` depend on all the segment's fields"""
+    pv = Prov(fn, field_assign=False)
+    for n in fn.walk():
+        if n.get("k") in ("Assign", "AssignOp") and n["l"].get("k") == "Unary":
+            l = strip(n["l"])
+            if isinstance(l, dict) and l.get("k") == "Path" and "local" in l and str(l.get("t", "")).startswith("&mut") and l["local"] in pv.src:
+                pv.src[l["local"]] = [x for x in pv.src[l["local"]] if x[0] is not n["r"]]
+    pv._memo = {}
+    return pv
 
 
 def is_base(V, e):
@@ -231,7 +256,7 @@ class Vocab:
         crate = [g for g in P.fns.values() if g.crate == self.write.crate and g.kind == "Fn" and "::test" not in g.path and not g.derived]
         cores = [g for g in crate if any(digit_table(P, x) for x in g.walk())]
         self.vlq_core = cores[0] if len(cores) == 1 else P.fn("sourcemap_writer::base64_vlq::base64_vlq")
-        self.vlq_fns = {g.path for g in crate if self.vlq_core.path in P.reachable([g])}
+        self.vlq_fns = {g.path for g in crate if self.vlq_core.path in P.reachable([g]) and any(peel_ty(t) == "isize" for t in g.sig_inputs)} | {self.vlq_core.path}
         self.utf16_len = P.fn("sourcemap_writer::source_writer::utf16_len::utf16_len")
         # --- which counter remembers what: told by the field names when they use the Source Map vocabulary
         roles = {}
@@ -607,7 +632,7 @@ def r06a(P, R):
     V = vocab(P)
     f0 = V.add_entry
     f = inl(P, f0)
-    pv = Prov(f, field_assign=False)
+    pv = state_prov(V, f)
     acc = f.nodes()
     bases = V.bases
 
@@ -1023,7 +1048,7 @@ def segment_roles(P):
     if V.base_role:
         return {r: b for b, r in V.base_role.items()}
     f = inl(P, V.add_entry)
-    pv = Prov(f, field_assign=False)
+    pv = state_prov(V, f)
     qb = {}
     for b_, e_, _ in base_assigns(V, f):
         qb.setdefault(b_, set()).add(quantity(pv.atoms(e_)))
